@@ -323,10 +323,20 @@ def run_reauth(case: dict[str, Any]) -> dict[str, Any]:
 
     first_client: list[Any] = []
 
-    def new_client() -> Any:
-        c = kube.client(f"tok{current['n']}")
+    class TokenSession(fakekube.Client):
+        """Credentials are compared by what they ARE (the token), as kopf's ConnectionInfo is: a new session built from a token equals the old one with that token."""
+        def __eq__(self, other: Any) -> bool:
+            return isinstance(other, fakekube.Client) and getattr(other, 'token', None) == self.token
+
+        def __hash__(self) -> int:
+            return hash(self.token)
+
+    def new_client(token: str | None = None) -> Any:
+        c = kube.client(token or f"tok{current['n']}")
+        c.__class__ = TokenSession
         c.token = c.name
-        current['n'] += 1
+        if token is None:
+            current['n'] += 1
         if not first_client:
             first_client.append(c)
         return c
@@ -346,8 +356,8 @@ def run_reauth(case: dict[str, Any]) -> dict[str, Any]:
             rec['token'] = first_client[0].token
             rec['stale'] = True
             cov['stale_offers'] = cov.get('stale_offers', 0) + 1
-            first_client[0].closed = False       # (with token credentials the connection would be built anew from them; here the session object IS the credential)
-            return credentials.AiohttpSession(server='http://fake', aiohttp_session=first_client[0])
+            # a NEW session built from the old token (the old session object was closed at its invalidation and stays closed: requests that still hold it fail as before)
+            return credentials.AiohttpSession(server='http://fake', aiohttp_session=new_client(first_client[0].token))
         c = new_client()
         rec['t1'] = loop.time()
         rec['token'] = c.token
